@@ -72,7 +72,7 @@ def _rowcheck_cases(ctx, fn):
     out, order = {}, []
     for s in fn.body:
         if isinstance(s, ast.If):
-            for test, body in if_chain(s):
+            for test, body in if_chain(s, extend=False):
                 rets = [x for x in body if isinstance(x, ast.Return)]
                 if test is None:
                     case = 'else'
